@@ -696,3 +696,6 @@ PROPS["C01"]["rule"] += " PREF64 cap on its own (through the configuration 3 x m
 
 PROPS["C08"]["rule"] += " One event in six before the stop is a link event (the interface is re-initialised, the final RA belongs on the connection that is live then - finding F26); nothing new is written to a connection once the next one exists."
 PROPS["C06"]["rule"] += " Enumeration bursts-on-every-tick: crowds of 17, 40, 60 unicast solicitations at, 1 ns before and 1 ns after each of 12 consecutive periodic ticks (max_interval 4, 5, 8 s)."
+
+PROPS["C12"]["rule"] += " Matrix also: the same inconsistency two and three times over (k RDNSS / DNSSL options on both sides each differing in the same way; k repetitions of one of our routes in the received RA): every one is logged and counted."
+PROPS["C20"]["rule"] += " Enumeration serve-many-tasks-one-not-ready: 63, 64, 65, 66, 128, 129, 130 tasks of which the 1st, 33rd, 64th, 65th or last is never (or 3 s late) ready."
